@@ -20,6 +20,15 @@ type c01Stringer struct{ s string }
 
 func (s c01Stringer) String() string { return s.s }
 
+// numeric and bool kinds whose printed form comes from a method and carries HTML-special bytes
+type c01HTMLInt int
+
+func (c01HTMLInt) String() string { return "<i>&</i>" }
+
+type c01ErrBool bool
+
+func (c01ErrBool) Error() string { return "<b>'\"" }
+
 func c01Long(n int, at ...int) string {
 	b := []byte(strings.Repeat("x", n))
 	specials := "<&>'\""
@@ -62,6 +71,9 @@ var c01Vals = []c01Val{
 	{"strptr", &c01PStr, false, false},
 	{"strslice", []string{"<a>", "b&"}, false, false},
 	{"nil", nil, false, false},
+	{"stringer-int", c01HTMLInt(7), false, false},
+	{"error-bool", c01ErrBool(true), false, false},
+	{"uint8", uint8(200), false, false},
 	{"long4096", c01Long(4100, 4094, 4095, 4096, 4097, 4098), true, true},
 	{"long8192", c01Long(8200, 0, 4095, 4096, 8190, 8191, 8192, 8193, 8194, 8199), true, true},
 	{"exact4096", c01Long(4096, 0, 4095), true, true},
@@ -108,7 +120,7 @@ func c01Mk(val c01Val) func(log *[]string) rj.Inputs {
 
 var c01Writers = []string{"raw", "unsafe", "safeHtml", "safeJs", "uw"}
 
-const c01NForms = 3 + 15
+const c01NForms = 3 + 15 + 10
 
 func c01Action(form int) (*rj.Emit, bool) {
 	switch form {
@@ -120,6 +132,11 @@ func c01Action(form int) (*rj.Emit, bool) {
 		return &rj.Emit{E: rj.V("v"), Pipe: []string{"html"}}, true
 	}
 	form -= 3
+	if form >= 15 {
+		// several arguments; the middle one executes a template that uses a *different* safe writer itself
+		form -= 15
+		return &rj.Emit{E: rj.V("v"), Writer: c01Writers[form/2], WForm: 1 + form%2, More: []rj.Expr{&rj.Exec{Name: rj.S("/helper.jet")}, rj.V("v")}}, false
+	}
 	return &rj.Emit{E: rj.V("v"), Writer: c01Writers[form/3], WForm: form % 3}, false
 }
 
@@ -207,6 +224,11 @@ func c01Build(shape int, frames []int, form int, val c01Val, esc string) *rj.Pro
 		holder.Imports = []string{"/lib.jet"}
 		files = append(files, &rj.File{Name: "/lib.jet", Body: b.lib})
 	}
+	helperWriter := "unsafe"
+	if act.Writer == "unsafe" || act.Writer == "raw" {
+		helperWriter = "safeHtml"
+	}
+	files = append(files, &rj.File{Name: "/helper.jet", Body: []rj.Stmt{rj.T("lost"), &rj.Emit{E: rj.S("<inner>"), Writer: helperWriter, WForm: 1}, &rj.Return{E: rj.S("<R&>")}}})
 	files = append(append([]*rj.File{entry}, files...), b.files...)
 	return &rj.Program{Files: files, Entry: "/t.jet", Mk: c01Mk(val), Escaper: esc}
 }
@@ -266,7 +288,7 @@ var c01Deep = registerSpace(&e1Space{
 })
 
 func C01(r *core.Run) map[string]interface{} {
-	r.Rule = "context (every sequence of <=2, thorough 3, frames over if/else/range/range-else/block/yield/content/include/try/catch/exec/includeIfExists) x outer shape (plain, root layout of an extends chain, leaf block rendered by the root's yield) x 24 values (each HTML-special byte, combinations, pre-escaped, multi-byte, NUL, specials at the 4096-byte print-chunk borders, int/float/bool/[]byte/Stringer/error/*string/[]string/nil) x 18 action forms ({{v}}, {{v|f}}, {{v|html}}, and 5 safe writers in 3 call forms) x 4 escapers (default, nil, custom homomorphic, custom bracketing); oracle: byte equality with text ++ E(printed v); distinct = distinct reference outputs"
+	r.Rule = "context (every sequence of <=2, thorough 3, frames over if/else/range/range-else/block/yield/content/include/try/catch/exec/includeIfExists) x outer shape (plain, root layout of an extends chain, leaf block rendered by the root's yield) x 24 values (each HTML-special byte, combinations, pre-escaped, multi-byte, NUL, specials at the 4096-byte print-chunk borders, int/float/bool/[]byte/Stringer/error/*string/[]string/nil) x 28 action forms ({{v}}, {{v|f}}, {{v|html}}, 5 safe writers in 3 call forms, and in 2 multi-argument forms whose middle argument executes a template using another safe writer) x 4 escapers (default, nil, custom homomorphic, custom bracketing); oracle: byte equality with text ++ E(printed v); distinct = distinct reference outputs"
 	runSpace(r, c01Flat)
 	runSpace(r, c01Deep)
 	return map[string]interface{}{"values": len(c01Vals), "forms": c01NForms, "frames": c01NFrames, "traces_validated_against_impl": r.Evals()}
